@@ -270,3 +270,39 @@ def json_draws(j, acc=None):
         for x in j:
             json_draws(x, acc)
     return acc
+
+
+def run_hash_digest(seed):
+    """`HashDigest(names, algorithm)` (return_value=False): asking for the digest of a field executes no user function upstream of it - the hash
+    of an ordinary field needs no value; with `return_value=True` every function runs once (C03: only what the request needs)"""
+    from .pipeline import Builder
+    from .sym import SymWorld
+    paths.use_repo()
+    import connectome as c
+    rng = random.Random(seed)
+    world = SymWorld()
+    b = Builder(world)
+    src = {'k': 'source', 'cls': 'HD', 'ids': ['a', 'b'], 'params': {'_p': {'args': ['i']}}, 'cargs': {}, 'defaults': {},
+           'fields': {'x': {'args': ['i', '_p']}, 'y': {'args': ['i']}}}
+    t = {'k': 'transform', 'cls': 'HT', 'fields': {'z': {'args': ['x', 'y']}}, 'params': {}, 'cargs': {}, 'defaults': {}, 'inherit': True}
+    layers = [src, t] + ([{'k': 'ram', 'names': None, 'size': None}] if rng.random() < 0.4 else [])
+    problems = []
+    try:
+        base = b.layer({'k': 'chain', 'flavour': 'chain', 'layers': layers})
+        names = rng.choice([['z'], ['x', 'z'], ['y']])
+        only = base >> c.HashDigest(names, rng.choice(['sha256', 'blake2b', None]))
+        mark = world.mark()
+        for n in names:
+            getattr(only, n)('a')
+        ran = sorted({c_[0] for c_ in world.since(mark)})
+        if ran:
+            problems.append({'names': names, 'msg': f'HashDigest({names}) without return_value: asking for the digests executed {ran}; the hashes of these fields need no value'})
+        both = base >> c.HashDigest(names, 'sha256', return_value=True)
+        mark = world.mark()
+        out = getattr(both, names[-1])('b')
+        calls = [c_[0] for c_ in world.since(mark)]
+        if len(calls) != len(set(calls)):
+            problems.append({'names': names, 'msg': f'HashDigest(..., return_value=True): one call executed {calls} (a function more than once)'})
+    except Exception as e:
+        problems.append({'msg': 'HashDigest scenario raised ' + exc_name(e) + ': ' + str(e)[:150]})
+    return problems
